@@ -243,6 +243,9 @@ class TransactionManager:
     def is_fatal_error(self):
         return self.state == TransactionState.FATAL_ERROR
 
+    def has_abortable_error(self):
+        return self.state == TransactionState.ABORTABLE_ERROR
+
     def wait_for_transaction_end(self):
         return self._transaction_waiter
 
